@@ -33,6 +33,9 @@ RULES = {
     "H1": rules_extra.rule_H1,
     "R1": rules_extra.rule_R1,
     "P3": rules_state.rule_P3,
+    "S2": rules_extra.rule_S2,
+    "D2": rules_dep.rule_D2,
+    "R2": rules_extra.rule_R2,
 }
 
 SELFTESTS = {"T1": rules_types.selftest_T1}
@@ -66,11 +69,12 @@ PROPS = {
     "C04": {
         "id": "C04",
         "title": "Slices select and assign exactly the numpy-designated elements",
-        "rules": ["G5", "G3", "G3b", "G4", "E1", "T1"],
+        "rules": ["G5", "G3", "G3b", "G4", "E1", "T1", "D2"],
         "clause": "slice creation rejects by exception every out-of-range start/stop/step combination of the statement; every "
                   "multi-element slice assignment is count-guarded before the first write; no forward copy primitive runs on "
                   "possibly-aliased storage; a slice copy carries the source's index state; materialising a slice cannot "
-                  "terminate the process; const slices are not assignable",
+                  "terminate the process; const slices are not assignable; the end iterator of every slice is a function of the "
+                  "slice's start, step and extent (a sentinel the strided walk from begin() can arrive at)",
         "not_decided": "the index-resolution arithmetic against Python's x[i1:i2:step] (element count, negative indices)",
         "explanation": "G5 normalises the live throwing guards of base_slice_t's constructor to interval literals and checks the "
                        "eight required rejections on all paths to the normal exit; G3/G3b work on the CFG of every "
@@ -80,7 +84,7 @@ PROPS = {
     "C05": {
         "id": "C05",
         "title": "No call corrupts memory or hangs: misuse is reported by exception",
-        "rules": ["G1", "G2", "G3", "G5", "G6", "E1", "A1", "Z1"],
+        "rules": ["G1", "G2", "G3", "G5", "G6", "E1", "A1", "Z1", "D2"],
         "clause": "guard completeness (mechanisms 1-3 of the anchors): every plan solve() checks the input length with a live "
                   "check before mixing it with plan tables; every foreign-bound subscript and caller-supplied index in a public "
                   "function is dominated by a live relating guard; slices are range-checked at creation and count-checked at "
@@ -99,13 +103,14 @@ PROPS = {
     "C06": {
         "id": "C06",
         "title": "Streaming processors are invariant to how the stream is framed",
-        "rules": ["H1", "V1", "P2", "P3"],
+        "rules": ["H1", "V1", "P2", "P3", "S2"],
         "clause": "structural necessary conditions of framing invariance: every array-valued state member a process() method rewrites "
                   "(delay line, history, overlap tail) receives a value that depends on its previous contents and on the input frame, "
                   "and the returned frame depends on the input and on that state (a history longer than the frame survives; no call "
                   "starts from rest); no lazy slice view is read after the array it denotes was written; separately constructed "
                   "instances share no mutable static storage, and a member-wise copy of a processor never shares state that "
-                  "its process() changes through a shared_ptr member",
+                  "its process() changes through a shared_ptr member; a stateful member (filter, averager, delay line) is advanced in place or "
+                  "written back, never on a local copy that is dropped",
         "not_decided": "sample-exact equality of the concatenated output for all framings (index arithmetic of the hand-over, block "
                        "accumulators, ring indices), granularity checks",
         "explanation": "H1 runs a may-dependence analysis (through locals, pointer aliases and members) over every process() method "
@@ -118,7 +123,7 @@ PROPS = {
     "C08": {
         "id": "C08",
         "title": "Multirate converters equal the zero-stuff/filter/decimate definition",
-        "rules": ["R1", "H1"],
+        "rules": ["R1", "H1", "S2", "R2"],
         "clause": "the documented rejections and the identity case: FIRDecimator and FIRRateConverter reject (by a live throwing check "
                   "on every path to a normal return) frames whose length is not a multiple of the decimation factor; resample returns "
                   "its input unchanged when the reduced ratio is 1; a rejected frame leaves the converter untouched (no member is written on "
@@ -166,7 +171,7 @@ PROPS = {
     "C11": {
         "id": "C11",
         "title": "FIR and window designs meet their closed-form specifications",
-        "rules": ["R1"],
+        "rules": ["R1", "R2"],
         "clause": "a custom window of the wrong length is rejected: on every path from either windowed fir1 overload to a normal "
                   "return a live throwing comparison of win.size() with the order is passed (in the design helper that path calls)",
         "not_decided": "symmetry, DC/Nyquist gain, the Hamming-design masks, the closed forms of all window functions",
@@ -175,7 +180,7 @@ PROPS = {
     "C12": {
         "id": "C12",
         "title": "Adaptive filters report a-priori errors, honour the lock, and converge",
-        "rules": ["L1", "G2"],
+        "rules": ["L1", "G2", "S2", "R2"],
         "clause": "with the lock set no path of LmsFilter/RlsFilter::process writes the coefficient vector (or the RLS inverse "
                   "correlation); the flag is written only by set_lock_coeffs; y[k] is computed from the pre-update coefficients and "
                   "e[k] is formed from d and that y before the update; the x/d length guard dominates all indexing",
@@ -187,7 +192,7 @@ PROPS = {
     "C14": {
         "id": "C14",
         "title": "Analytic-signal and frequency-translation tools follow their definitions",
-        "rules": ["N1", "N3", "V1"],
+        "rules": ["N1", "N3", "V1", "S2", "R2"],
         "clause": "the tuner's admissible-frequency test (and every other division of the anchored files) is carried out in real "
                   "arithmetic: every f with |f| <= fs/2 is accepted, also for odd sample rates",
         "not_decided": "hilbert/HilbertFilter numerics and the phase accumulator arithmetic",
@@ -207,7 +212,7 @@ PROPS = {
     "C20": {
         "id": "C20",
         "title": "Dynamics processors never amplify, follow their static curves, and settle",
-        "rules": ["N1", "L2", "H1"],
+        "rules": ["N1", "L2", "H1", "S2", "R2"],
         "clause": "the static gain computers and their range checks contain no integer-truncated division (slope 1/ratio is real); "
                   "the AGC's max_gain clamp lies on every path between a gain update and its use; the smoothing state of "
                   "compressor, limiter and noise gate is carried into the output and no data-dependent shortcut bypasses its update",
@@ -218,7 +223,7 @@ PROPS = {
     "C16": {
         "id": "C16",
         "title": "Sorting, order statistics and rank correlation match their definitions",
-        "rules": ["D1", "N3"],
+        "rules": ["D1", "N3", "R2"],
         "clause": "each correlation kernel's result (Pearson, Spearman, Kendall, per return statement of corr) may-depends on the "
                   "contents of both samples - necessary for symmetry and for being the named coefficient at all",
         "not_decided": "correctness of sort/median/medfilt, the numerical value of the coefficients, ties",
